@@ -31,7 +31,9 @@ namespace
     std::int64_t us(DateTime t) { return t.time_since_epoch().count(); }
     DateTime     dt(std::int64_t v) { return DateTime{TimeDelta{v}}; }
 
-    enum Kind { PLAIN = 0, NESTED = 1, TRY = 2, CAPTURE = 3 };
+    // REENTER: a nested node whose owner re-enters a paused child cycle until it completes (what mesh_ does);
+    // PAUSER: a native node whose evaluate returns false (pauses its graph's cycle; what mesh_subscribe does)
+    enum Kind { PLAIN = 0, NESTED = 1, TRY = 2, CAPTURE = 3, REENTER = 4, PAUSER = 5 };
 
     struct InSpec { std::int64_t src; int port; bool active; bool required; };
     struct Bind { std::size_t outer_slot, child_node, child_slot; };
@@ -44,6 +46,8 @@ namespace
         std::vector<InSpec>                     ins;
         std::map<std::int64_t, std::vector<Op>> scripts;  // k -> ops; -1 start; -2 default
         std::int64_t                            runs{0};
+        std::map<std::int64_t, std::int64_t>    pauses;   // run index -> pauses before that run completes
+        std::int64_t                            paused{0};
         std::int64_t                            child{-1}, outn{-1};
         std::vector<Bind>                       binds;
     };
@@ -72,6 +76,7 @@ namespace
         const auto p = w.find("hgv boom ");
         if (p != std::string::npos) { return 100 + std::atoll(w.c_str() + p + 9); }
         if (w.find("in the past") != std::string::npos) { return 3; }
+        if (w.find("paused with no resolver") != std::string::npos) { return 7; }
         return 1;
     }
 
@@ -200,6 +205,74 @@ namespace
         }
     };
 
+    void user_eval(Ctx *pc, std::size_t g, std::size_t i, const NodeView &v, DateTime t)
+    {
+        NodeSpec          &n = pc->graphs[g].nodes[i];
+        const std::int64_t k = n.runs++;
+        Line               l{12, (std::int64_t)g, (std::int64_t)i, us(t), k};
+        if (n.uses_sched)
+        {
+            NodeScheduler s{v.scheduler_state(), v.graph_value(), i, t, true};
+            l.push_back(s.is_scheduled_now());
+            l.push_back(us(s.next_scheduled_time()));
+        }
+        else { l.push_back(0); l.push_back(0); }
+        if (!n.ins.empty())
+        {
+            auto root   = v.input(t);
+            auto bundle = root.as_bundle();
+            for (std::size_t s = 0; s < n.ins.size(); ++s)
+            {
+                auto   in = bundle[s];
+                InRead r  = read_in(in, is_err_input(*pc, g, i, s));
+                l.push_back(r.valid);
+                l.push_back(r.modified);
+                l.push_back(r.value);
+                l.push_back(r.lmt);
+            }
+        }
+        pc->out->line(l);
+        run_ops(*pc, g, i, v, t, true, k);
+    }
+
+    Ctx *g_ctx = nullptr;
+
+    // PAUSER: evaluate returns false `pauses[run]` times (line 17 each) before the run completes
+    bool pauser_evaluate_impl(const void *, const NodeView &view, DateTime t)
+    {
+        if (!view.started()) { return true; }
+        Ctx              &ctx = *g_ctx;
+        const std::size_t g   = gid_of(ctx, view.graph());
+        const std::size_t i   = view.node_index();
+        NodeSpec         &n   = ctx.graphs[g].nodes[i];
+        auto              it  = n.pauses.find(n.runs);
+        const std::int64_t want = it == n.pauses.end() ? 0 : it->second;
+        if (n.paused < want)
+        {
+            ctx.out->line({17, (std::int64_t)g, (std::int64_t)i, us(t), n.paused});
+            ++n.paused;
+            return false;
+        }
+        n.paused = 0;
+        user_eval(&ctx, g, i, view, t);
+        return true;
+    }
+
+    // REENTER: as single_nested_graph_evaluate, but a paused child cycle is re-entered until it completes
+    bool reenter_evaluate_impl(const void *, const NodeView &view, DateTime t)
+    {
+        if (!view.started()) { return true; }
+        auto nested = view.as<SingleNestedGraphNodeView>();
+        nested.ensure_child_graph();
+        single_nested_graph_bind_inputs(nested, t);
+        single_nested_graph_bind_output(nested, t);
+        for (int guard = 0; guard < 65; ++guard)
+        {
+            if (nested.child_graph().evaluate(t)) { return true; }
+        }
+        throw std::runtime_error("hgv reentry guard");
+    }
+
     GraphBuilder build_graph(Ctx &ctx, std::size_t g);
 
     NodeBuilder build_node(Ctx &ctx, std::size_t g, std::size_t i)
@@ -223,7 +296,7 @@ namespace
         }
         const TSValueTypeMetaData *in_schema = n.ins.empty() ? nullptr : registry.un_named_tsb(fields);
 
-        if (n.kind == NESTED || n.kind == TRY)
+        if (n.kind == NESTED || n.kind == TRY || n.kind == REENTER)
         {
             schema.display_name = n.kind == TRY ? "hgv_try" : "hgv_nested";
             if (in_schema != nullptr)
@@ -243,14 +316,16 @@ namespace
             // the child's terminal: a try_except terminal exposes its `out` field
             NestedGraphEndpoint terminal{.node = (std::size_t)(n.outn < 0 ? 0 : n.outn)};
             if (n.outn >= 0 && ctx.graphs[(std::size_t)n.child].nodes[(std::size_t)n.outn].kind == TRY) { terminal.path = {1}; }
-            if (n.kind == NESTED)
+            if (n.kind == NESTED || n.kind == REENTER)
             {
                 if (n.outn >= 0)
                 {
                     schema.output_schema = ctx.ts_int;
                     spec.output_binding  = NestedGraphOutputBinding{.source = terminal};
                 }
-                NodeBuilder nb = single_nested_graph_node(std::move(schema), std::move(spec));
+                NodeTypeDescriptor desc = single_nested_graph_node_descriptor(std::move(schema), std::move(spec));
+                if (n.kind == REENTER) { desc.ops.evaluate_impl = &reenter_evaluate_impl; }
+                NodeBuilder nb = NodeBuilder::from_descriptor(std::move(desc));
                 if (in_schema != nullptr) { nb.input_endpoint(TSEndpointSchema::non_peered(in_schema, std::move(children))); }
                 return nb;
             }
@@ -283,34 +358,16 @@ namespace
         NodeCallbacks cb;
         Ctx          *pc = &ctx;
         cb.start    = [pc, g, i](const NodeView &v, DateTime t) { run_ops(*pc, g, i, v, t, false, -1); };
-        cb.evaluate = [pc, g, i](const NodeView &v, DateTime t) {
-            NodeSpec          &n = pc->graphs[g].nodes[i];
-            const std::int64_t k = n.runs++;
-            Line               l{12, (std::int64_t)g, (std::int64_t)i, us(t), k};
-            if (n.uses_sched)
-            {
-                NodeScheduler s{v.scheduler_state(), v.graph_value(), i, t, true};
-                l.push_back(s.is_scheduled_now());
-                l.push_back(us(s.next_scheduled_time()));
-            }
-            else { l.push_back(0); l.push_back(0); }
-            if (!n.ins.empty())
-            {
-                auto root   = v.input(t);
-                auto bundle = root.as_bundle();
-                for (std::size_t s = 0; s < n.ins.size(); ++s)
-                {
-                    auto   in = bundle[s];
-                    InRead r  = read_in(in, is_err_input(*pc, g, i, s));
-                    l.push_back(r.valid);
-                    l.push_back(r.modified);
-                    l.push_back(r.value);
-                    l.push_back(r.lmt);
-                }
-            }
-            pc->out->line(l);
-            run_ops(*pc, g, i, v, t, true, k);
-        };
+        cb.evaluate = [pc, g, i](const NodeView &v, DateTime t) { user_eval(pc, g, i, v, t); };
+        if (n.kind == PAUSER)
+        {
+            NodeTypeDescriptor desc;
+            desc.schema             = std::move(schema);
+            desc.callbacks          = std::move(cb);
+            desc.ops.evaluate_impl  = &pauser_evaluate_impl;
+            if (endpoint) { return NodeBuilder::from_descriptor(std::move(desc), std::move(*endpoint)); }
+            return NodeBuilder::from_descriptor(std::move(desc));
+        }
         if (endpoint) { return NodeBuilder::native(std::move(schema), std::move(cb), std::move(*endpoint)); }
         return NodeBuilder::native(std::move(schema), std::move(cb));
     }
@@ -377,7 +434,7 @@ namespace
         for (std::size_t i = 0; i < gs.nodes.size(); ++i)
         {
             NodeSpec &n = gs.nodes[i];
-            if (n.kind == NESTED || n.kind == TRY)
+            if (n.kind == NESTED || n.kind == TRY || n.kind == REENTER)
             {
                 auto nested = gv.node_at(i).as<SingleNestedGraphNodeView>();
                 if (nested.child_graph_value().has_value()) { final_lines(ctx, (std::size_t)n.child, nested.child_graph(), end); }
@@ -429,9 +486,11 @@ namespace
                 ctx.graphs[n.child].parent_n = l[2];
             }
             else if (l[0] == 3) { node_ref(l[1], l[2]).scripts[l[3]].push_back({l[4], l[5], l[6]}); }
+            else if (l[0] == 9) { node_ref(l[1], l[2]).pauses[l[3]] = l[4]; }
         }
         if (ctx.graphs.empty()) { ctx.graphs.resize(1); }
 
+        g_ctx = &ctx;
         Obs obs{&ctx};
         try
         {
